@@ -136,6 +136,18 @@ pub fn fill(seed: u32, len: usize) -> Vec<u8> {
             let pat: &[u8] = b"GET / HTTP/1.1\r\nHost: example.org\r\n\r\n";
             out.iter_mut().enumerate().for_each(|(i, b)| *b = pat[i % pat.len()])
         }
+        SEED_V2HEADER => {
+            // the bytes are themselves one complete PROXY v2 header (LOCAL, unspecified family) whose length field says exactly
+            // how long they are: 16 + (len - 16) - for any len from 16 to 65551
+            if len >= 16 && len - 16 <= 65535 {
+                out.iter_mut().enumerate().for_each(|(i, b)| *b = (i % 251) as u8);
+                out[..12].copy_from_slice(b"\r\n\r\n\0\r\nQUIT\n");
+                out[12] = 0x20;
+                out[13] = 0x00;
+                out[14] = ((len - 16) >> 8) as u8;
+                out[15] = (len - 16) as u8;
+            }
+        }
         SEED_FQDN => {
             // an absolute host name: labels of letters, digits and hyphens joined by dots, ending in the root dot
             let pat: &[u8] = b"proxy.example-1.com.eu.";
@@ -187,13 +199,16 @@ pub const SEED_NESTED: u32 = 0xffff_fffb;
 pub const SEED_COUNTED: u32 = 0xffff_fff9;
 /// an absolute host name with its trailing root dot
 pub const SEED_FQDN: u32 = 0xffff_fff7;
+/// a complete v2 header whose length field matches the size of the byte string
+pub const SEED_V2HEADER: u32 = 0xffff_fff5;
 
 /// A fill seed from the tape: mostly random content, but one value in four is one of the content classes
 /// (all zero / all 0xFF / ASCII letters / signature bytes) that pure random bytes never produce.
 pub fn gen_seed(t: &mut Tape) -> u32 {
-    match t.weighted(&[24, 4, 2, 2, 2, 1, 1, 1, 1, 1]) {
+    match t.weighted(&[24, 4, 2, 2, 2, 1, 1, 1, 1, 1, 1]) {
         8 => SEED_COUNTED,
         9 => SEED_FQDN,
+        10 => SEED_V2HEADER,
         0 => t.u32() | 1,
         1 => 0,
         2 => SEED_ONES,
